@@ -80,7 +80,12 @@ def _weight_spec(rng, field, es, us, mode):
     if mode == "none":
         return None
     if mode == "dict":
-        return {"dict": {k: q(half(rng, 0, 2) + Fraction(1, 2)) for k in ks}}
+        # distinct values, and an insertion order that is a random permutation of the loss's own dict order
+        # (set_loss_weights keeps the user's dict as is: pairing must be by key, never by position)
+        vals = rng.sample([Fraction(x, 2) for x in range(1, 8)], len(ks))
+        order = list(ks)
+        rng.shuffle(order)
+        return {"dict": {k: q(vals[ks.index(k)]) for k in order}}
     if mode == "dict_missing":
         return {"dict": {k: "1" for k in ks[:-1]}} if len(ks) > 1 else {"dict": {"zz": "1"}}
     if mode == "dict_extra":
@@ -127,6 +132,9 @@ def gen_cases(rng, tier):
         if rng.random() < 0.25:
             names = [k["name"] for k in keys]
             c["batched"] = rng.sample(names, rng.randint(1, len(names)))
+        # dynamic_loss_dict / u_dict (and every per-unknown dict) are built in a non-sorted key order
+        c["eq_order"] = rng.sample(range(E), E)
+        c["u_order"] = rng.sample(range(U), U)
         return c
 
     fields_of = lambda kind: FIELDS_ODE if kind == "sys_ode" else FIELDS_PDE
@@ -192,6 +200,8 @@ def _shrink(case):
             if cc.get("obs") and cc["obs"].get("unknowns"):
                 cc["obs"] = {**cc["obs"], "unknowns": [u for u in cc["obs"]["unknowns"] if u in us] or ["u0"]}
             cc["per_unknown"] = {u: v for u, v in (case.get("per_unknown") or {}).items() if u in us}
+            cc["eq_order"] = [i for i in case.get("eq_order", range(case["E"])) if i < cc["E"]]
+            cc["u_order"] = [i for i in case.get("u_order", range(case["U"])) if i < cc["U"]]
             yield cc
     if case.get("obs"):
         yield {**c, "obs": None}
@@ -251,6 +261,17 @@ def run_impl(case):
         return {"observed": {"error": core.err_kind(e), "msg": str(e)[:200], "stage": "construction"},
                 "singles": [], "plain": None}
     obs = {"observed": c12.outcome_of(lambda: loss.evaluate(world["params"], world["batch"]))}
+    # the same evaluation under jit: with the loss object closed over (its dicts keep the user's key order) and
+    # with the loss object passed as an argument (a flatten / unflatten round trip re-sorts every dict)
+    obs["observed_jit"] = None
+    if "terms" in obs["observed"]:
+        import equinox as eqx
+        import jax
+        p, b = world["params"], world["batch"]
+        obs["observed_jit"] = [
+            c12.outcome_of(lambda: jax.jit(lambda pp, bb: loss.evaluate(pp, bb))(p, b)),
+            c12.outcome_of(lambda: eqx.filter_jit(lambda L, pp, bb: L.evaluate(pp, bb))(loss, p, b)),
+        ]
     # the real single losses of every unknown on the same data (unit weights, no dynamic part)
     singles = []
     for u in pr["unknowns"]:
@@ -279,10 +300,21 @@ def lean_request(case, obs):
         u = pr["unknowns"][0]
         ps = c12.single_json(pr, u, plain_weights(pr), True, c12.rows_json(pr["param_rows"]))
         req["plain_single"] = ps
-    return req
+    reqs = [req]
+    # the jitted evaluations are judged by the same predicate on their own outputs
+    for o in obs.get("observed_jit") or []:
+        reqs.append({**req, "observed": _strip(o)})
+    return reqs
 
 
 def judge(case, obs, a):
+    if isinstance(a, list):
+        for i, x in enumerate(a):
+            v = judge(case, obs, x)
+            if v["status"] != "ok":
+                v["execution"] = ["eager", "jit(loss closed over)", "jit(loss as argument)"][i]
+                return v
+        return {"status": "ok", "clause": None}
     if not a["holds"]:
         return {"status": "violation", "clause": a["clause"], "model": a["model"]}
     if not a["agree"]:
@@ -330,6 +362,15 @@ def tags(case, obs):
     out.append("impl=" + ("error:" + o["error"] if "error" in o else "value"))
     if obs.get("plain") is not None:
         out.append("plain_loss_compared")
+    if obs.get("observed_jit"):
+        out.append("eager_and_jitted")
+    es, us = _names(case)
+    for f, v in case["weights"].items():
+        if isinstance(v, dict) and "dict" in v and len(v["dict"]) > 1:
+            own = [(es if f == "dyn_loss" else us)[i] for i in case.get("eq_order" if f == "dyn_loss" else "u_order",
+                                                                         range(len(v["dict"])))]
+            if list(v["dict"]) != own and set(v["dict"]) == set(own):
+                out.append("weight_dict_order!=loss_dict_order" + ("(dyn_loss)" if f == "dyn_loss" else ""))
     return out
 
 
